@@ -8,6 +8,7 @@ import (
 	"testing"
 
 	"github.com/btcsuite/btcd/btcec/v2"
+	"github.com/btcsuite/btcd/btcutil"
 	"github.com/elementsproject/peerswap/swap"
 
 	"verifharness/ref"
@@ -19,7 +20,7 @@ var c01Deviations = []string{
 	"none", "none-swap-at-index-1", "none-extra-outputs", "none-announce-after-confirm", "none-duplicate-delivery",
 	"amount-1", "amount+1", "amount-x1000", "amount-0",
 	"keys-swapped", "foreign-taker-key", "foreign-maker-key",
-	"script-other-hash", "csv-other", "csv-plus-1",
+	"script-other-hash", "csv-other", "csv-plus-1", "script-witness-v1", "script-witness-v16", "script-p2sh-wrapped",
 	"dup-first-wrong-second-right", "dup-first-right-second-wrong",
 	"unconfirmed", "one-conf", "reorged-out",
 	"txid-unrelated", "txid-unknown",
@@ -298,6 +299,17 @@ func c01Announce(r *Run, w *sim.World, c c01Case, rng *mrand.Rand, chain *sim.Ch
 		csv++
 	}
 	good := outSpec{Script: refPk(taker, maker, scriptHash, csv), Value: value, BlindPub: blindKey.PubKey().SerializeCompressed()}
+	switch c.dev {
+	case "script-witness-v1":
+		// the same 32-byte program under another witness version: not the swap's P2WSH output
+		good.Script = append([]byte{0x51}, good.Script[1:]...)
+	case "script-witness-v16":
+		good.Script = append([]byte{0x60}, good.Script[1:]...)
+	case "script-p2sh-wrapped":
+		// P2SH wrapping the witness program (OP_HASH160 <hash160(program)> OP_EQUAL)
+		h := btcutil.Hash160(good.Script)
+		good.Script = append(append([]byte{0xa9, 0x14}, h...), 0x87)
+	}
 	change := func() outSpec {
 		k, _ := btcec.NewPrivateKey()
 		return outSpec{Script: p2wpkhScript(), Value: uint64(10_000 + rng.Intn(100_000)), BlindPub: k.PubKey().SerializeCompressed()}
